@@ -42,6 +42,16 @@ def run(tier, replay=None):
     if len(tuples) * 2 != r.distinct:
         raise vlib.Infra("OBS lines (%d) do not match TLC's state count (%d)" % (len(tuples), r.distinct))
     mism, summary = replay_tuples(tuples)
+    # binding self-test: a corrupted expectation must be reported by the replayer
+    import copy
+    bad = [copy.deepcopy(t) for t in tuples if t["r"].get("val", {}).get("k") == "int"][:5]
+    for t in bad:
+        t["r"]["val"]["v"] += 1
+    if bad:
+        bm, _ = replay_tuples(bad)
+        if len(bm) != len(bad):
+            raise vlib.Infra("binding self-test: %d corrupted tuples, %d reported" % (len(bad), len(bm)))
+        ck.part("binding self-test", corrupted=len(bad), rejected=len(bm))
     ck.cov["evaluations"] = summary["tuples"]
     ck.cov["traces_validated_against_impl"] = summary["tuples"] - summary["unspec"]
     ck.cov["distinct_nontrivial"] = sum(1 for t in tuples if not (t["a"]["k"] == "nil" and t["b"]["k"] == "nil") and t["r"].get("err") != "unspec")
